@@ -257,16 +257,17 @@ end
 
 /-! ### Top level -/
 
-/-- Outside pseudo-classes a complex selector whose last compound has no type selector gets the
-    universal selector `*` (no prefix): under a default namespace that restricts the subject to
-    the default namespace (`matchNamespace`, C12).  Only the LAST compound is treated this way. -/
+/-- Outside pseudo-classes every compound of a complex selector that has no type selector gets the
+    universal selector `*` (no prefix): under a default namespace that restricts the element to
+    the default namespace (`matchNamespace`, C12).  Inside pseudo-class arguments nothing is
+    implied. -/
 def Compound.withImplied : Compound → Compound
   | .mk none parts => .mk (some ⟨.default, none⟩) parts
   | cp => cp
 
 def Complex.withImplied : Complex → Complex
   | .one cp => .one cp.withImplied
-  | .comb L k R => .comb L k R.withImplied
+  | .comb L k R => .comb L.withImplied k R.withImplied
 
 /-- Meaning of a top-level complex selector. -/
 def satTop (c : Ctx) (l : Loc) (x : Complex) : Bool := sat c l x.withImplied
